@@ -706,3 +706,36 @@ func (vc *FnVC) assumeLoaded(t Term, ty types.Type) {
 		}
 	}
 }
+
+// runDefersAtRecover: the state in which the recover block starts. Every defer site of the function may have been
+// registered before the panic; a site in the entry block with no call before it certainly was.
+func (vc *FnVC) runDefersAtRecover() {
+	var sites []*ssa.Defer
+	for _, b := range vc.fn.Blocks {
+		for _, in := range b.Instrs {
+			if d, ok := in.(*ssa.Defer); ok {
+				sites = append(sites, d)
+			}
+		}
+	}
+	for i := len(sites) - 1; i >= 0; i-- {
+		d := sites[i]
+		certain := d.Block() == vc.fn.Blocks[0]
+		if certain {
+			for _, in := range d.Block().Instrs {
+				if in == ssa.Instruction(d) {
+					break
+				}
+				if _, isCall := in.(*ssa.Call); isCall {
+					certain = false
+				}
+			}
+		}
+		before := vc.cur
+		vc.call(d, nil)
+		if !certain {
+			g := vc.declare(vc.e.fresh("deferred"), "Bool")
+			vc.cur = joinMems(vc.e, vc.emit, []*Mem{vc.cur, before}, []Term{g, not(g)})
+		}
+	}
+}
